@@ -121,3 +121,26 @@ package rest
 //@     invariant authorized <==> (exists u string :: in(u, seen1) && u == username && credentials[u] == password)
 //@     invariant served == old(served) && rpcN == old(rpcN) && httpResponses == old(httpResponses)
 //@   modifies served, httpResponses, httpLastStatus, httpDocs, rpcN, rpcLastSvc, rpcLastMethod
+
+// ---- C15: the REST API section's saved form: every setting is written from the field of the same name ----
+//@ func (cfg *Config) toJSONConfig
+//@   property C15
+//@   requires cfg != nil
+//@   loop 1 (range cfg.HTTPListenAddr)
+//@     invariant len(httpAddresses) == idx1 && forall j int :: 0 <= j && j < idx1 ==> httpAddresses[j] == cfg.HTTPListenAddr[j].String()
+//@   loop 2 (range cfg.Libp2pListenAddr)
+//@     invariant len(libp2pAddresses) == idx2 && forall j int :: 0 <= j && j < idx2 ==> libp2pAddresses[j] == cfg.Libp2pListenAddr[j].String()
+//@   ensures [http-listen-multiaddress] err == nil ==> jcfg != nil && len(jcfg.HTTPListenMultiaddress) == len(cfg.HTTPListenAddr) && forall j int :: 0 <= j && j < len(cfg.HTTPListenAddr) ==> jcfg.HTTPListenMultiaddress[j] == cfg.HTTPListenAddr[j].String()
+//@   ensures [libp2p-listen-multiaddress] err == nil && len(cfg.Libp2pListenAddr) > 0 ==> len(jcfg.Libp2pListenMultiaddress) == len(cfg.Libp2pListenAddr) && forall j int :: 0 <= j && j < len(cfg.Libp2pListenAddr) ==> jcfg.Libp2pListenMultiaddress[j] == cfg.Libp2pListenAddr[j].String()
+//@   ensures [ssl-files] err == nil ==> jcfg.SSLCertFile == cfg.pathSSLCertFile && jcfg.SSLKeyFile == cfg.pathSSLKeyFile
+//@   ensures [read-timeout] err == nil ==> jcfg.ReadTimeout == cfg.ReadTimeout.String()
+//@   ensures [read-header-timeout] err == nil ==> jcfg.ReadHeaderTimeout == cfg.ReadHeaderTimeout.String()
+//@   ensures [write-timeout] err == nil ==> jcfg.WriteTimeout == cfg.WriteTimeout.String()
+//@   ensures [idle-timeout] err == nil ==> jcfg.IdleTimeout == cfg.IdleTimeout.String()
+//@   ensures [max-header-bytes] err == nil ==> jcfg.MaxHeaderBytes == cfg.MaxHeaderBytes
+//@   ensures [basic-auth-credentials] err == nil ==> jcfg.BasicAuthCredentials == cfg.BasicAuthCredentials
+//@   ensures [http-log-file] err == nil ==> jcfg.HTTPLogFile == cfg.HTTPLogFile
+//@   ensures [headers] err == nil ==> jcfg.Headers == cfg.Headers
+//@   ensures [cors] err == nil ==> jcfg.CORSAllowedOrigins == cfg.CORSAllowedOrigins && jcfg.CORSAllowedMethods == cfg.CORSAllowedMethods && jcfg.CORSAllowedHeaders == cfg.CORSAllowedHeaders && jcfg.CORSExposedHeaders == cfg.CORSExposedHeaders && jcfg.CORSAllowCredentials == cfg.CORSAllowCredentials && jcfg.CORSMaxAge == cfg.CORSMaxAge.String()
+//@   ensures [id] err == nil && cfg.ID != "" ==> jcfg.ID == libfn("peer.Encode", 0, cfg.ID)
+//@   modifies nothing
